@@ -428,10 +428,12 @@ structure SelectState where
   sortKey     : String
   deriving Repr
 
-/-- `writeSelect`: operands are (Chan, Send) pairs, `s1` the comma-separated directions -/
-def Canon.writeSelect (c : Canon) (i : Instr) (r : Regs) : String × Regs :=
-  let rec states : List String → List Operand → Regs → List SelectState × Regs
-    | d :: ds, ch :: snd :: ops, r =>
+/-- `selectStates`: the cases of a select in canonical order, each with its index in the original
+    `States` slice (`none` = the implicit default).  Operands are (Chan, Send) pairs, `s1` the
+    comma-separated directions; the select itself is the usage context of its operands. -/
+def Canon.selectStates (c : Canon) (i : Instr) (r : Regs) : List (Option Nat × SelectState) × Regs :=
+  let rec states : Nat → List String → List Operand → Regs → List (Option Nat × SelectState) × Regs
+    | k, d :: ds, ch :: snd :: ops, r =>
       let dir := if d == "s" then "->" else if d == "r" then "<-" else "?"
       let (chanRepr, r) :=
         match ch.val with
@@ -442,19 +444,72 @@ def Canon.writeSelect (c : Canon) (i : Instr) (r : Regs) : String × Regs :=
         | none => ("", r)
         | some v => c.normalizeOperand (some v) i r
       let key := dir ++ chanRepr ++ (if sendRepr != "" then "<-" ++ sendRepr else "")
-      let (rest, r) := states ds ops r
-      ({ dir := dir, chanRepr := chanRepr, sendValRepr := sendRepr, sortKey := key } :: rest, r)
-    | _, _, r => ([], r)
-  let (ss, r) := states (i.s1.splitOn ",") i.ops r
-  let dflt : List SelectState :=
-    if i.b1 then []
-    else [{ dir := "<-", chanRepr := "<default>", sendValRepr := "",
-            sortKey := String.singleton (Char.ofNat 0) ++ "<default>" }]
-  let sorted := stableSortBy (fun (a b : SelectState) => decide (a.sortKey < b.sortKey)) (dflt ++ ss)
-  let body := sorted.map (fun s =>
+      let (rest, r) := states (k + 1) ds ops r
+      let st : SelectState := { dir := dir, chanRepr := chanRepr, sendValRepr := sendRepr, sortKey := key }
+      ((some k, st) :: rest, r)
+    | _, _, _, r => ([], r)
+  let (ss, r) := states 0 (i.s1.splitOn ",") i.ops r
+  let dfltState : SelectState :=
+    { dir := "<-", chanRepr := "<default>", sendValRepr := "",
+      sortKey := String.singleton (Char.ofNat 0) ++ "<default>" }
+  let dflt : List (Option Nat × SelectState) := if i.b1 then [] else [(none, dfltState)]
+  (stableSortBy (fun (a b : Option Nat × SelectState) => decide (a.2.sortKey < b.2.sortKey)) (dflt ++ ss), r)
+
+/-- `writeSelect` -/
+def Canon.writeSelect (c : Canon) (i : Instr) (r : Regs) : String × Regs :=
+  let (sorted, r) := c.selectStates i r
+  let body := sorted.map (fun e =>
+    let s := e.2
     " (" ++ s.dir ++ " " ++ s.chanRepr ++
       (if s.sendValRepr != "" then " <- " ++ s.sendValRepr else "") ++ ")")
   ("Select" ++ (if i.b1 then " [blocking]" else " [non-blocking]") ++ String.join body, r)
+
+/-- position of `x` in `l` -/
+def indexOf? (l : List Nat) (x : Nat) : Option Nat :=
+  let rec go : List Nat → Nat → Option Nat
+    | [], _ => none
+    | y :: ys, k => if y == x then some k else go ys (k + 1)
+  go l 0
+
+/-- `canonicalSelectCase`: original case index ↦ position among the real cases in canonical order -/
+def Canon.canonicalSelectCase (c : Canon) (sel : Instr) (orig : Nat) (r : Regs) : Option Nat × Regs :=
+  let (sorted, r) := c.selectStates sel r
+  (indexOf? (sorted.filterMap (·.1)) orig, r)
+
+/-- `canonicalSelectRecv`: the k-th receive case in original order ↦ its position among the receive
+    cases in canonical order -/
+def Canon.canonicalSelectRecv (c : Canon) (sel : Instr) (k : Nat) (r : Regs) : Option Nat × Regs :=
+  let dirs := sel.s1.splitOn ","
+  let recvOrig := (dirs.zipIdx.filter (fun e => e.1 == "r")).map (·.2)
+  match recvOrig[k]? with
+  | none => (none, r)
+  | some orig =>
+    let (sorted, r) := c.selectStates sel r
+    (indexOf? ((sorted.filter (fun e => e.1.isSome && e.2.dir == "<-")).filterMap (·.1)) orig, r)
+
+/-- `selectCaseOperand(v, other)`: `v` an integer constant compared with the chosen-case index
+    (`Extract #0`) of a select -/
+def Canon.selectCaseOperand (c : Canon) (v other : Option Val) (r : Regs) : Option String × Regs :=
+  match v, other with
+  | some (.const k), some (.instr eid) =>
+    match c.fn.instr? eid with
+    | some ex =>
+      if ex.kind == .Extract && ex.n1 == 0 && k.kind == .int then
+        match (ex.opVal 0) with
+        | some (.instr sid) =>
+          match c.fn.instr? sid with
+          | some sel =>
+            if sel.kind == .Select && k.fits64 && 0 ≤ k.i64 && k.i64 < ((sel.s1.splitOn ",").length : Int)
+                && sel.ops.length ≥ 2 then
+              match c.canonicalSelectCase sel k.i64.toNat r with
+              | (some pos, r) => (some ("<select_case:" ++ toString pos ++ ">"), r)
+              | (none, r) => (none, r)
+            else (none, r)
+          | none => (none, r)
+        | _ => (none, r)
+      else (none, r)
+    | none => (none, r)
+  | _, _ => (none, r)
 
 /-- the `*ssa.Alloc` case: `ssa.NewConst(constant.MakeInt64(length), int)` is shown to the
     policy with the Alloc as usage context -/
@@ -480,6 +535,16 @@ def Canon.instrBody (c : Canon) (i : Instr) (r : Regs) : Option String × Regs :
   | .BinOp =>
     let (x, r) := no 0 r
     let (y, r) := no 1 r
+    -- `chosen == k` on a select: k is printed as a position in the canonical case order
+    let (x, y, r) :=
+      if i.op == "==" || i.op == "!=" then
+        match c.selectCaseOperand (i.opVal 1) (i.opVal 0) r with
+        | (some s, r) => (x, s, r)
+        | (none, r) =>
+          match c.selectCaseOperand (i.opVal 0) (i.opVal 1) r with
+          | (some s, r) => (s, y, r)
+          | (none, r) => (x, y, r)
+      else (x, y, r)
     let op := c.virtualBinOpToken i
     (some (binOpText (isCommutative i) op x y), r)
   | .UnOp =>
@@ -516,7 +581,22 @@ def Canon.instrBody (c : Canon) (i : Instr) (r : Regs) : Option String × Regs :
   | .Select => let (s, r) := c.writeSelect i r; (some s, r)
   | .Range => let (x, r) := no 0 r; (some ("Range " ++ x), r)
   | .Next => let (x, r) := no 0 r; (some ("Next " ++ x), r)
-  | .Extract => let (x, r) := no 0 r; (some ("Extract " ++ x ++ ", " ++ toString i.n1), r)
+  | .Extract =>
+    -- #2.. of a select are the received values in ORIGINAL case order: print the canonical position
+    let (index, r) : Int × Regs :=
+      match i.opVal 0 with
+      | some (.instr sid) =>
+        match c.fn.instr? sid with
+        | some sel =>
+          if sel.kind == .Select && i.n1 ≥ 2 then
+            match c.canonicalSelectRecv sel (i.n1 - 2).toNat r with
+            | (some pos, r) => (2 + (pos : Int), r)
+            | (none, r) => (i.n1, r)
+          else (i.n1, r)
+        | none => (i.n1, r)
+      | _ => (i.n1, r)
+    let (x, r) := no 0 r
+    (some ("Extract " ++ x ++ ", " ++ toString index), r)
   | .Slice =>
     let (x, r) := no 0 r
     let opt := fun (label : String) (k : Nat) (r : Regs) =>
